@@ -79,8 +79,8 @@ def run(ctx):
             if f:
                 ctx.violation(case, 'regression corpus %s: %s' % (os.path.basename(path), d))
         procs = []
-        n_grid = 8000 if quick else 400000
-        n_seq = 4000 if quick else 300000
+        n_grid = 30000 if quick else 400000
+        n_seq = 15000 if quick else 300000
         for kind, n, off in (('grid', n_grid, 0), ('seq', n_seq, 500)):
             for w in range(driver.NCPU):
                 d = os.path.join(scratch, '%s%d' % (kind, w))
